@@ -220,4 +220,45 @@ static word r_shl_word(const word e[], size_t m, size_t j, size_t s)
 	return bs ? (hi << bs) | (lo >> (B_PER_W - bs)) : hi;
 }
 
+/* ---- binary polynomials (GF(2)[x]), little-endian bit order ------------------------ */
+/* c[n + m] <- a[n] * b[m], bit-serial shift-and-xor */
+static void r_pmul(word c[], const word a[], size_t n, const word b[], size_t m)
+{
+	size_t i, j, k;
+	for (i = 0; i < n + m; ++i) c[i] = 0;
+	for (i = 0; i < m; ++i)
+		for (k = 0; k < B_PER_W; ++k)
+			if ((b[i] >> k) & 1)
+				for (j = 0; j < n; ++j)
+				{
+					c[i + j] ^= a[j] << k;
+					if (k) c[i + j + 1] ^= a[j] >> (B_PER_W - k);
+				}
+}
+
+/* degree, or (size_t)-1 for the zero polynomial */
+static size_t r_pdeg(const word a[], size_t n)
+{
+	size_t bits = r_bitsize(a, n);
+	return bits - 1;
+}
+
+/* r[n] <- a[n] mod b[m] (b != 0), shift-and-xor long division; r holds n words */
+static void r_pmod(word r[], const word a[], size_t n, const word b[], size_t m)
+{
+	size_t db = r_pdeg(b, m), pos, j;
+	r_copy(r, a, n);
+	for (pos = n * B_PER_W; pos-- > db;)
+		if (r_testbit(r, pos))
+		{
+			size_t s = pos - db;       /* r ^= b << s */
+			for (j = 0; j < m; ++j)
+			{
+				size_t w = s / B_PER_W + j, k = s % B_PER_W;
+				if (w < n) r[w] ^= b[j] << k;
+				if (k && w + 1 < n) r[w + 1] ^= b[j] >> (B_PER_W - k);
+			}
+		}
+}
+
 #endif /* REF_H */
